@@ -1,5 +1,5 @@
 import Rfsm.Proofs.CodecData
-/-! Round trips of the small persisted structures (ids, strings lists, content, params, donedata, data maps). -/
+/-! Round trips of the lesser persisted structures (ids, strings lists, content, params, donedata, data maps). -/
 namespace Rfsm.Codec
 
 macro "norm_bytes" : tactic =>
@@ -13,11 +13,11 @@ theorem bytesOf_flatMap {α} (f : α → List Op) (l : List α) :
   | cons a l ih => simp [List.flatMap_cons, ih]
 
 /-- a counted list: `write_usize(len)`, then the elements -/
-theorem Reads.opsList {α} {p : Prog α} {f : α → List Op} (l : List α) (hl : wfU small l.length = true)
+theorem Reads.opsList {α} {p : Prog α} {f : α → List Op} (l : List α) (hl : wfU typeLim l.length = true)
     (h : ∀ a ∈ l, Reads p (bytesOf (f a)) a) : Reads (readList p) (bytesOf (opsList f l)) l := by
   unfold Rfsm.Codec.opsList
   rw [bytesOf_cons, bytesOf_flatMap]
-  exact Reads.list l (by simp only [wfU, small] at hl; exact of_decide_eq_true hl) h
+  exact Reads.list l (by simp only [wfU, typeLim] at hl; exact of_decide_eq_true hl) h
 
 def wfId (v : Nat) : Bool := decide (v < two32)
 
@@ -26,7 +26,7 @@ theorem Reads.wid {v : Nat} (h : wfId v = true) : Reads pId (uintOp v).bytes v :
 
 def wfIds (L : Lim) (l : List Nat) : Bool := wfU L l.length && l.all wfId
 
-theorem Reads.ids {l : List Nat} (h : wfIds small l = true) : Reads (readList pId) (bytesOf (opsIds l)) l := by
+theorem Reads.ids {l : List Nat} (h : wfIds typeLim l = true) : Reads (readList pId) (bytesOf (opsIds l)) l := by
   simp only [wfIds, Bool.and_eq_true, List.all_eq_true] at h
   refine Reads.opsList l h.1 (fun a ha => ?_)
   norm_bytes
@@ -34,7 +34,7 @@ theorem Reads.ids {l : List Nat} (h : wfIds small l = true) : Reads (readList pI
 
 def wfStrs (L : Lim) (l : List Str) : Bool := wfU L l.length && l.all (wfStr L)
 
-theorem Reads.strs {l : List Str} (h : wfStrs small l = true) :
+theorem Reads.strs {l : List Str} (h : wfStrs typeLim l = true) :
     Reads readStrList (bytesOf (opsStrList l)) l := by
   simp only [wfStrs, Bool.and_eq_true, List.all_eq_true] at h
   refine Reads.opsList l h.1 (fun a ha => ?_)
@@ -45,15 +45,15 @@ def wfOptStr (L : Lim) : Option Str → Bool
   | none => true
   | some s => wfStr L s
 
-theorem Reads.woptStr {o : Option Str} (h : wfOptStr small o = true) : Reads pOptStr (optStrOp o).bytes o := by
+theorem Reads.woptStr {o : Option Str} (h : wfOptStr typeLim o = true) : Reads pOptStr (optStrOp o).bytes o := by
   apply Reads.optStr
   cases o with
   | none => trivial
-  | some s => exact wfStr_small h
+  | some s => exact wfStr_lim h
 
 def wfCommon (L : Lim) (c : CommonContent) : Bool := wfOptStr L c.content && wfOptStr L c.contentExpr
 
-theorem Reads.common {c : CommonContent} (h : wfCommon small c = true) :
+theorem Reads.common {c : CommonContent} (h : wfCommon typeLim c = true) :
     Reads readCommon (bytesOf (opsCommon c)) c := by
   simp only [wfCommon, Bool.and_eq_true] at h
   unfold opsCommon
@@ -64,7 +64,7 @@ def wfOptCommon (L : Lim) : Option CommonContent → Bool
   | none => true
   | some c => wfCommon L c
 
-theorem Reads.optCommon {o : Option CommonContent} (h : wfOptCommon small o = true) :
+theorem Reads.optCommon {o : Option CommonContent} (h : wfOptCommon typeLim o = true) :
     Reads readOptCommon (bytesOf (opsOptCommon o)) o := by
   cases o with
   | none =>
@@ -79,7 +79,7 @@ theorem Reads.optCommon {o : Option CommonContent} (h : wfOptCommon small o = tr
 
 def wfParam (L : Lim) (p : Param) : Bool := wfStr L p.name && wfStr L p.expr && wfStr L p.location
 
-theorem Reads.param {p : Param} (h : wfParam small p = true) : Reads readParam (bytesOf (opsParam p)) p := by
+theorem Reads.param {p : Param} (h : wfParam typeLim p = true) : Reads readParam (bytesOf (opsParam p)) p := by
   simp only [wfParam, Bool.and_eq_true] at h
   unfold opsParam
   norm_bytes
@@ -90,7 +90,7 @@ def wfParams (L : Lim) : Option (List Param) → Bool
   | none => true
   | some l => !l.isEmpty && wfU L l.length && l.all (wfParam L)
 
-theorem Reads.params {o : Option (List Param)} (h : wfParams small o = true) :
+theorem Reads.params {o : Option (List Param)} (h : wfParams typeLim o = true) :
     Reads readParams (bytesOf (opsParams o)) o := by
   cases o with
   | none =>
@@ -111,7 +111,7 @@ theorem Reads.params {o : Option (List Param)} (h : wfParams small o = true) :
 
 def wfDoneData (L : Lim) (d : DoneData) : Bool := wfOptCommon L d.content && wfParams L d.params
 
-theorem Reads.doneData {d : DoneData} (h : wfDoneData small d = true) :
+theorem Reads.doneData {d : DoneData} (h : wfDoneData typeLim d = true) :
     Reads readDoneData (bytesOf (opsDoneData d)) d := by
   simp only [wfDoneData, Bool.and_eq_true] at h
   unfold opsDoneData
@@ -120,14 +120,14 @@ theorem Reads.doneData {d : DoneData} (h : wfDoneData small d = true) :
 
 def wfD (L : Lim) (d : Data) : Bool := wfData L d && decide (d.depth ≤ dataFuel)
 
-theorem Reads.wdata {d : Data} (h : wfD small d = true) : Reads readData (bytesOf (opsData d)) d := by
+theorem Reads.wdata {d : Data} (h : wfD typeLim d = true) : Reads readData (bytesOf (opsData d)) d := by
   simp only [wfD, Bool.and_eq_true] at h
   exact Reads.data h.1 (of_decide_eq_true h.2)
 
 def wfDataPairs (L : Lim) (l : List (Str × Data)) : Bool :=
   wfU L l.length && l.all (fun kv => wfStr L kv.1 && wfD L kv.2)
 
-theorem Reads.dataPairs {l : List (Str × Data)} (h : wfDataPairs small l = true) :
+theorem Reads.dataPairs {l : List (Str × Data)} (h : wfDataPairs typeLim l = true) :
     Reads readDataPairs (bytesOf (opsDataPairs l)) l := by
   simp only [wfDataPairs, Bool.and_eq_true, List.all_eq_true] at h
   refine Reads.opsList l h.1 (fun a ha => ?_)
